@@ -383,7 +383,12 @@ def value_repr(value: object) -> str:
         short = limit_string(value)
         return short.replace('\n', '\\n')
     if isinstance(value, (int, float)):
-        return value  # type: ignore[return-value]
+        try:
+            return '{}'.format(value)
+        except ValueError:
+            # more digits than the interpreter converts to decimal
+            return '<{} of {} bits>'.format(
+                type(value).__name__, value.bit_length())  # type: ignore
     if isinstance(value, dict):
         return '{...} (%d)' % len(value)
 
